@@ -551,6 +551,10 @@ func validateResultPath(repoDir, relPath string) (string, error) {
 	if info.IsDir() {
 		return "", fmt.Errorf("result path must be a file, not directory: %s", relPath)
 	}
+	// Reading a FIFO or device would block (while the lock is held) or hash nothing meaningful.
+	if !info.Mode().IsRegular() {
+		return "", fmt.Errorf("result path must be a regular file: %s", relPath)
+	}
 
 	return relPath, nil
 }
